@@ -131,6 +131,7 @@ type Engine struct {
 	depth     int
 	lastModel map[string]uint64
 	violSites map[string]bool
+	curFr     *frame
 }
 
 func NewEngine(cfg *Config) (*Engine, error) {
@@ -207,7 +208,11 @@ func (e *Engine) check(extra ...*sym.Term) sym.Result {
 	as := make([]*sym.Term, 0, len(e.pc)+len(extra))
 	as = append(as, e.pc...)
 	as = append(as, extra...)
+	t0 := time.Now()
 	r := e.S.Check(as)
+	if d := time.Since(t0); d > 5*time.Second && os.Getenv("VCHECK_SLOW") != "" {
+		fmt.Fprintf(os.Stderr, "SLOW query %.1fs %v at %s\n", d.Seconds(), r, e.where(e.curFr))
+	}
 	if r == sym.Unknown {
 		e.unknowns++
 	}
